@@ -292,6 +292,67 @@ def renderL (ci : SCls → ClsInfo) (f : Fmt) (pname : Option PStr) : List Node 
   | n :: ns => renderSpec ci f pname n ++ renderL ci f pname ns
 end
 
+/-! ### which formatter `decode` uses: `PageElement.formatter_for_name`, `PageElement._is_xml` (bs4/element.py) -/
+
+/-- `PageElement._is_xml`: `known_xml` of the element if it is not `None`, else the parent's answer; at an element
+    without parent `getattr(self, "is_xml", False)` (`rootAttr`). `chain` = the `known_xml` values from the element up
+    to the root of its tree. -/
+def isXmlImpl (rootAttr : Bool) : List (Option Bool) → Bool
+  | [] => rootAttr
+  | some b :: _ => b
+  | none :: rest => isXmlImpl rootAttr rest
+
+/-- spec: the first `known_xml` on the way up that is not `None`, else the root's `is_xml` attribute -/
+def isXmlSpec (rootAttr : Bool) (chain : List (Option Bool)) : Bool :=
+  match chain.find? Option.isSome with
+  | some (some b) => b
+  | _ => rootAttr
+
+/-- the `formatter` argument of `decode`/`encode`/`decode_contents`: a `Formatter` object, a callable (used as the
+    entity substitution function of a new formatter), or a registry key (a name or `None`) -/
+inductive FmtArg where
+  | obj (f : Fmt)
+  | fn (g : PStr → PStr)
+  | name (n : Option PStr)
+
+/-- `Fmt` or the `KeyError` of `registry[formatter_name]` -/
+inductive FmtRes where
+  | ok (f : Fmt)
+  | keyError
+
+/-- the environment of the lookup: both registries and the constructor defaults of `HTMLFormatter(entity_substitution=fn)`
+    / `XMLFormatter(entity_substitution=fn)`, indexed by `_is_xml`; `fnOf` turns a registry entry's function code
+    into the function -/
+structure FmtEnv where
+  registry : Bool → List (Option PStr × FmtSpec)
+  ctorDefaults : Bool → FmtSpec
+  fnOf : Nat → Option (PStr → PStr)
+
+def FmtEnv.mk' (e : FmtEnv) (s : FmtSpec) : Fmt := ⟨e.fnOf s.substKind, s.voidPrefix, s.cdataTags, s.emptyBool⟩
+
+def lookupReg (reg : List (Option PStr × FmtSpec)) (k : Option PStr) : Option FmtSpec :=
+  match reg with
+  | [] => none
+  | (a, b) :: rest => if a = k then some b else lookupReg rest k
+
+/-- `PageElement.formatter_for_name(formatter_name)` on an element with `_is_xml = isXml` -/
+def formatterForName (e : FmtEnv) (isXml : Bool) : FmtArg → FmtRes
+  | .obj f => .ok f                                            -- isinstance(formatter_name, Formatter)
+  | .fn g =>                                                   -- callable: c(entity_substitution=formatter_name)
+    let d := e.ctorDefaults isXml
+    .ok ⟨some g, d.voidPrefix, d.cdataTags, d.emptyBool⟩
+  | .name n =>                                                 -- registry[formatter_name]
+    match lookupReg (e.registry isXml) n with
+    | some s => .ok (e.mk' s)
+    | none => .keyError
+
+/-- `decode(formatter=arg)` with its formatter resolution; `none` = `KeyError` -/
+def decodeTop (ci : SCls → ClsInfo) (e : FmtEnv) (rootAttr : Bool) (chain : List (Option Bool)) (arg : FmtArg)
+    (n : Node) : Option PStr :=
+  match formatterForName e (isXmlImpl rootAttr chain) arg with
+  | .ok f => some (decodeNode ci f n)
+  | .keyError => none
+
 /-! ### spec of the event stream: the structural recursion over the tree -/
 
 mutual
